@@ -122,6 +122,9 @@ def family(rng, idx):
         members.append((("case-host-splitresult", base), lambda: URL(SplitResult(sch, host.upper(), path, q[1:], f[1:]), encoded=True)))
     if host and "@" not in host:
         # ... and the same NUMBER spelled differently in the stored authority (pre-encoded routes keep the written port text)
+        # ... and authorities that differ only by an EMPTY marker (a pre-encoded '@host', ':@host', 'host:' next to 'host')
+        for mark in ("@{}", ":@{}", "{}:", "@{}:", "{}"):
+            members.append((("empty-marker", mark), lambda mark=mark: URL(SplitResult(sch, mark.format(host.rpartition("@")[2]), path, q[1:], f[1:]), encoded=True)))
         for ptxt in ("80", "080", "0080", "+80", "8" + "0", "9", "10"):
             members.append((("port-spelling", ptxt), lambda ptxt=ptxt: URL(SplitResult(sch, host.rpartition("@")[2].split(":")[0] + ":" + ptxt if "[" not in host else host, path, q[1:], f[1:]), encoded=True)))
     members.append((("case-escapes", base), lambda: URL(SplitResult(sch, host, (path or "/") + "%2f%c3%a9", q[1:], f[1:]), encoded=True)))
